@@ -423,6 +423,10 @@ CHECKS = {
                          driver=['c12-seq', '-mode', 'enum', '-steps', '3' if tier == 'quick' else '4']),
                     dict(name='c12-random', module='TraceDynCache', shards=4 if tier == 'quick' else 14,
                          driver=['c12-seq', '-mode', 'random', '-n', '400' if tier == 'quick' else '20000', '-steps', '14', '-seed', str(seed)]),
+                    # the real InformerMap against a list/watch server: streams and event delivery (spec/TraceDynCacheReal.tla)
+                    dict(name='c12-real', module='TraceDynCacheReal', shards=4 if tier == 'quick' else 14,
+                         invariants=['Inv_C12_MatchesReferenceModel', 'Inv_C12_InformerIffOwned', 'Inv_C12_HandlersAttached'],
+                         driver=['c12-real', '-steps', '2' if tier == 'quick' else '3']),
                     dict(name='c12-stress', module='TraceDynCache', shards=4 if tier == 'quick' else 14,
                          driver=['c12-stress', '-n', '40' if tier == 'quick' else '2000', '-steps', '60', '-seed', str(seed)])]),
     'C13': dict(level='model_checking', invariants=INV['C13'], module='TraceRender',
@@ -498,7 +502,7 @@ TECHNIQUES = {
     'C08': 'TLA+ model-based: exhaustive TLC check of the revision-layer design model spec/PKODeploy.tla (archive / prune decisions per API call); ' + TV,
     'C10': 'TLA+ model-based fault enumeration: a staged scenario is run once undisturbed and once per API-call index x disturbance kind on the real controllers; TLC (spec/TraceObs.tla) tracks the store from the events and compares its end state with the reference digest; plus TLC liveness checking of the design model spec/PKO.tla under fairness (FixedSpec: repaired, quiescent, teardown completes)',
     'C11': 'TLA+ model-based: preflight decision table (classes x owner kinds x rollout/teardown) run through the real controllers; ' + TV + ' with the row classes as independent oracle',
-    'C12': 'TLA+ model-based: exhaustive TLC check of the reference model spec/DynCache.tla (intended + as-found variants as negative controls); enumerated and random operation sequences and concurrent stress on the real dynamiccache.Cache validated by TLC against the model (spec/TraceDynCache.tla: state and result equality after every call)',
+    'C12': 'TLA+ model-based: exhaustive TLC check of the reference model spec/DynCache.tla (intended + as-found variants as negative controls); enumerated and random operation sequences and concurrent stress on the real dynamiccache.Cache validated by TLC against the model (spec/TraceDynCache.tla: state and result equality after every call); the real InformerMap against a list/watch server (spec/TraceDynCacheReal.tla: one open stream per owned kind, events reach every handler)',
     'C13': 'TLA+ model-based: rendering specified as a pure function (spec/Render.tla); abstract packages concretised and rendered repeatedly by the real pipeline; TLC (spec/TraceRender.tla) compares every outcome with Expected(p)',
     'C14': 'TLA+ model-based: exhaustive TLC check of spec/PKODeploy.tla (deployer with slices and slice GC; design-level reproduction of the known GC race as negative control); differential sliced-vs-inline runs and package update histories on the real controllers; ' + TV,
     'C15': 'TLA+ model-based: exhaustive TLC check (safety + liveness) of the delegated-phase protocol model spec/PKOPhase.tla (decision function spec/RemotePhase.tla); differential delegated-vs-local runs and seeded schedules of the real ObjectSet / ObjectSetPhase controllers; ' + TV + ' (C01-C06, C09 invariants on delegated scenarios)',
